@@ -88,9 +88,22 @@ def run(ctx):
                 t0 = n.targets[0]
                 if isinstance(t0, ast.Subscript) and isinstance(t0.value, ast.Name) and t0.value.id == "dim":
                     flip = n
-                elif isinstance(t0, ast.Name) and t0.id == "dim":
-                    permd = n
+                elif isinstance(t0, ast.Name) and t0.id == "dim" and not (isinstance(n.value, ast.Call) and not isinstance(n.value.func, ast.Attribute) and False):
+                    # (a plain copy `dim = np.array(dim)` / `dim.copy()` is neither the flip nor the re-ordering)
+                    is_copy = isinstance(n.value, ast.Call) and unparse(n.value).replace(" ", "") in ("np.array(dim)", "dim.copy()", "np.copy(dim)", "np.array(dim,copy=True)")
+                    if not is_copy:
+                        permd = n
         if flip is not None:
+            from .. import flow as flw
+            hitf = flw.find_stmt_of(pt.node, flip)
+            fconds = [(t_, pol) for t_, pol in flw.conds(hitf[1])] if hitf else []
+            hitc = flw.find_stmt_of(pt.node, cc)
+            cconds = {(unparse(t_), pol) for t_, pol in flw.conds(hitc[1])} if hitc else set()
+            extra = [(t_, pol) for t_, pol in fconds if (unparse(t_), pol) not in cconds]
+            ctx.ob("R-PAIR", pt, "the row/column exchange of the dims runs on every path to the closing call", not extra,
+                   "unconditional" if not extra else
+                   f"the exchange only happens when `{unparse(extra[0][0])[:60]}` is {extra[0][1]}: on the other paths the closing permutation is given the un-exchanged dims "
+                   "(wrong whenever the selected subsystems have individually different row and column dimensions, e.g. dims [[2,3],[3,2]])", flip)
             lhs, rhs = Nn(flip.targets[0]), Nn(flip.value)
             okf = rhs[0] == "call" and rhs[1] in ("numpy.flipud",) and rhs[2] and rhs[2][0] == lhs and \
                 lhs[2] == ("tuple", ("slice", ("c", None), ("c", None), ("c", None)), ("n", "sys"))
@@ -185,6 +198,10 @@ def run(ctx):
     # `dim` included: the swapped row/column dimensions written into the caller's ndarray made a second identical call
     # raise InvalidDim (or, for dimension tables with equal totals, silently use other dimensions) -- F47
     r_effect_free(ctx, pt, ["rho", "sys", "dim"])
+
+    # ---- the Variable path goes through the same two conversion helpers as partial_trace's --------------
+    from .C02 import _helpers
+    _helpers(ctx)
 
     # ---- realignment ---------------------------------------------------------------------------
     ra = m.func("realignment.realignment")
